@@ -8,6 +8,7 @@ import (
 
 	"google.golang.org/protobuf/proto"
 	"google.golang.org/protobuf/reflect/protoreflect"
+	"google.golang.org/protobuf/reflect/protoregistry"
 	"google.golang.org/protobuf/types/dynamicpb"
 	"google.golang.org/protobuf/verifmc/core"
 	"google.golang.org/protobuf/verifmc/hist"
@@ -228,8 +229,78 @@ func ops() []hist.Op[*state] {
 	}
 }
 
+// extOps is the alphabet of the second system: an extendable root whose
+// message-typed extension values (singular, repeated, group) carry their own
+// size caches and are sized through the extension coder, not a field coder.
+func extOps() []hist.Op[*state] {
+	type S = *state
+	mk := func(name string, f func(c *core.Ctx, s S, h string)) hist.Op[S] { return hist.Op[S]{Name: name, Do: f} }
+	xt := func(s S, n int) protoreflect.FieldDescriptor {
+		x, err := protoregistry.GlobalTypes.FindExtensionByNumber(s.root.Descriptor().FullName(), protoreflect.FieldNumber(n))
+		if err != nil {
+			panic(err)
+		}
+		return x.TypeDescriptor()
+	}
+	ext := func(s S) protoreflect.Message { return s.root.Mutable(xt(s, 18)).Message() }
+	grand := func(s S) protoreflect.Message { e := ext(s); return e.Mutable(fld(e, 2)).Message() }
+	marshal := func(name string, o proto.MarshalOptions) hist.Op[S] {
+		return mk(name, func(c *core.Ctx, s S, h string) {
+			b, err := o.Marshal(s.root.Interface())
+			verify(c, s, b, err, name, h)
+		})
+	}
+	return []hist.Op[S]{
+		mk("ext.a=1", func(c *core.Ctx, s S, h string) { e := ext(s); e.Set(fld(e, 1), protoreflect.ValueOfInt32(1)) }),
+		mk("ext.a=-1", func(c *core.Ctx, s S, h string) { e := ext(s); e.Set(fld(e, 1), protoreflect.ValueOfInt32(-1)) }),
+		mk("ext.clear(a)", func(c *core.Ctx, s S, h string) { e := ext(s); e.Clear(fld(e, 1)) }),
+		mk("ext.grandchild.ext(int32)=7", func(c *core.Ctx, s S, h string) {
+			g := grand(s)
+			g.Set(xt(s, 1), protoreflect.ValueOfInt32(7))
+		}),
+		mk("ext.clear(grandchild)", func(c *core.Ctx, s S, h string) { e := ext(s); e.Clear(fld(e, 2)) }),
+		mk("repext+={a=1}", func(c *core.Ctx, s S, h string) {
+			l := s.root.Mutable(xt(s, 48)).List()
+			e := l.NewElement()
+			e.Message().Set(fld(e.Message(), 1), protoreflect.ValueOfInt32(1))
+			l.Append(e)
+		}),
+		mk("repext[0].clear(a)", func(c *core.Ctx, s S, h string) {
+			if !s.root.Has(xt(s, 48)) {
+				return
+			}
+			e := s.root.Mutable(xt(s, 48)).List().Get(0).Message()
+			e.Clear(fld(e, 1))
+		}),
+		mk("groupext.a=big", func(c *core.Ctx, s S, h string) {
+			g := s.root.Mutable(xt(s, 16)).Message()
+			g.Set(g.Descriptor().Fields().Get(0), protoreflect.ValueOfInt32(1<<20))
+		}),
+		mk("groupext.clear(a)", func(c *core.Ctx, s S, h string) {
+			if s.root.Has(xt(s, 16)) {
+				g := s.root.Mutable(xt(s, 16)).Message()
+				g.Clear(g.Descriptor().Fields().Get(0))
+			}
+		}),
+		mk("Size(root)", func(c *core.Ctx, s S, h string) { proto.Size(s.root.Interface()) }),
+		mk("Size(ext)", func(c *core.Ctx, s S, h string) { proto.Size(ext(s).Interface()) }),
+		marshal("Marshal(root)", proto.MarshalOptions{AllowPartial: true}),
+		marshal("Marshal{Deterministic}(root)", proto.MarshalOptions{AllowPartial: true, Deterministic: true}),
+		mk("Size+MarshalUseCachedSize(root)", func(c *core.Ctx, s S, h string) {
+			proto.MarshalOptions{AllowPartial: true}.Size(s.root.Interface())
+			b, err := proto.MarshalOptions{AllowPartial: true, UseCachedSize: true}.Marshal(s.root.Interface())
+			verify(c, s, b, err, "Marshal{UseCachedSize} after Size", h)
+		}),
+		mk("SizeDet+MarshalDetUseCachedSize(root)", func(c *core.Ctx, s S, h string) {
+			proto.MarshalOptions{AllowPartial: true, Deterministic: true}.Size(s.root.Interface())
+			b, err := proto.MarshalOptions{AllowPartial: true, Deterministic: true, UseCachedSize: true}.Marshal(s.root.Interface())
+			verify(c, s, b, err, "Marshal{Deterministic,UseCachedSize} after Size", h)
+		}),
+	}
+}
+
 func run(c *core.Ctx) {
-	c.Rule = "explicit-state BFS over histories of 27 operations (leaf/mid/list-element/map-value/oneof-member mutations that change encoded length incl. across the 127/128 length-prefix boundary and that empty a child in place; Size at three levels; Marshal default/Deterministic/Append (full and with spare capacity)/UseCachedSize-after-Size/through a dynamicpb parent holding the message; Clone/Equal) on a real three-level message in open, hybrid, opaque and proto3 flavors; state key = canonical content + every size-cache word read by reflection; in every state reached by a Marshal transition the output must decode (independent dynamicpb decoder) to the current content"
+	c.Rule = "explicit-state BFS over histories of 27 operations (leaf/mid/list-element/map-value/oneof-member mutations that change encoded length incl. across the 127/128 length-prefix boundary and that empty a child in place; Size at three levels; Marshal default/Deterministic/Append (full and with spare capacity)/UseCachedSize-after-Size/through a dynamicpb parent holding the message; Clone/Equal) on a real three-level message in open, hybrid, opaque and proto3 flavors, and a second system of 15 operations on an extendable root whose singular, repeated and group message-typed extension values (and an extension inside a grandchild) are mutated between Size / Marshal / Marshal{Deterministic} / UseCachedSize calls; state key = canonical content + every size-cache word read by reflection; in every state reached by a Marshal transition the output must decode (independent dynamicpb decoder) to the current content"
 	depth := core.Pick(c, 5, 7)
 	c.Bounds["depth"] = depth
 	var out []map[string]any
@@ -250,6 +321,23 @@ func run(c *core.Ctx) {
 		}
 		r := hist.BFS(c, sys, d)
 		out = append(out, map[string]any{"type": name, "depth": d, "states": r.States, "transitions": r.Transitions, "max_depth": r.MaxDepth, "frontier_exhausted": r.FrontierExhausted})
+		c.DistinctN(int64(r.States))
+		if c.Expired() {
+			exhaust = false
+		}
+	}
+	for _, name := range []string{"goproto.proto.test.TestAllExtensions", "opaque.goproto.proto.testeditions.TestAllExtensions", "hybrid.goproto.proto.testeditions.TestAllExtensions"} {
+		mt := univ.MT(name)
+		sys := &hist.System[*state]{
+			Name: name,
+			New: func() *state {
+				return &state{root: mt.New(), dyn: dynamicpb.NewMessageType(mt.Descriptor())}
+			},
+			Ops: extOps(),
+			Key: key,
+		}
+		r := hist.BFS(c, sys, depth)
+		out = append(out, map[string]any{"type": name, "alphabet": "message-typed extension values", "operations": len(sys.Ops), "depth": depth, "states": r.States, "transitions": r.Transitions, "max_depth": r.MaxDepth, "frontier_exhausted": r.FrontierExhausted})
 		c.DistinctN(int64(r.States))
 		if c.Expired() {
 			exhaust = false
